@@ -4,7 +4,7 @@ import os
 from vlib import core, enumgen
 
 PROP = "C14"
-LEAN_MODULES = ["ShootVerif.Props.C14", "ShootVerif.Props.C14Facts"]
+LEAN_MODULES = ["ShootVerif.Props.C14", "ShootVerif.Props.C14Facts", "ShootVerif.Props.C14Hist"]
 USES_FACTS = True
 DRIVER = "shootmodel_enum"
 enumgen.regen_enum_facts()          # lean/ShootVerif/Gen/EnumFacts.lean follows the current source (Props/C04Facts.lean)
@@ -46,7 +46,8 @@ def make_cases(ctx, cid, en, mode=None, flags=None):
         negs = [v for v in negs if lo <= v < 0]
     rerun = ctx.rng.random() < 0.35         # a second `enum -bit` run over the package that holds the first run's output
     codec = ctx.rng.choice(CODEC_SETS) if flags is None else flags      # -bit together with the codec flags
-    run = {"args": ["enum", "-bit"] + ["-" + f for f in codec] + lay["sel"]}
+    bitflag = ctx.rng.choice(["-bit", "-bit", "-bitwise"])          # -bit is an alias of -bitwise
+    run = {"args": ["enum", bitflag] + ["-" + f for f in codec] + lay["sel"]}
     hist = enumgen.edit_history(ctx, en, lay) if ctx.rng.random() < 0.6 else None
     files0, runs, edit = lay["files"], [run] * (2 if rerun else 1), "none"
     if hist:
@@ -54,11 +55,11 @@ def make_cases(ctx, cid, en, mode=None, flags=None):
         runs, rerun = [run] + steps + [run], True
     gx = [enumgen.generated_sexp(en, decl)] if rerun else []
     hops = enumgen.history(ctx.rng, en, decl, codec=codec, bit=True)
-    main = {"id": cid, "en": en, "decl": decl, "files": files0, "codec": codec, "edit": edit, "verbose": lay["verbose"], "mode": lay["mode"] + ("+spread" if lay["spread"] and lay["mode"].startswith("file") else ""),
+    main = {"id": cid, "en": en, "decl": decl, "files": files0, "codec": codec, "edit": edit, "verbose": lay["verbose"], "neutral": lay["neutral"], "mode": lay["mode"] + ("+spread" if lay["spread"] and lay["mode"].startswith("file") else ""),
             "runs": runs, "rerun": rerun,
             "oracle": {".": enumgen.oracle_c14(en, decl, hi, negs, codec, hops)}, "hist": hops,
             "sexp": enumgen.case_sexp(cid, "c14", en, gx + [["flags"] + codec, ["hi", str(hi)], ["neg"] + [str(v) for v in negs], enumgen.history_sexp(hops)]), "cmd": "shoot " + " ".join(run["args"]) + (" ; edit(%s) ; again" % edit if hist else ""),
-            "hi": hi, "kind": "main"}
+            "hi": hi, "kind": "main", "bitflag": bitflag}
     raw = {"id": cid + "r", "en": en, "decl": decl, "sexp": enumgen.case_sexp(cid + "r", "c14raw", en, gx),
            "cmd": "shoot enum -bit -type=%s && go build" % T, "kind": "raw"}
 
@@ -157,6 +158,10 @@ def run(ctx, obl):
             res.hist("run-mode", main["mode"])
             res.hist("rerun", str(main["rerun"]))
             res.hist("verbose-flag", str(main["verbose"]))
+            res.hist("neutral-flags", "+".join(sorted(main["neutral"])) or "none")
+            res.hist("bit-flag-spelling", main["bitflag"])
+            for k in enumgen.hist_kinds(main.get("hist", [])):
+                res.hist("history-calls", k)
             res.hist("codec-flags-with-bit", "+".join(main["codec"]) or "none")
             res.hist("edit-history", main["edit"])
             res.hist("generated-header-file", str(bool(main["en"].get("genheader"))))
